@@ -50,9 +50,11 @@ pub struct Knobs {
     pub coins: bool,
     /// bias towards calls, recursion and callee heap allocation (C34)
     pub call_heavy: bool,
+    /// bias towards instructions that read / move contract code, balances and storage (C30)
+    pub code_ops: bool,
 }
 impl Knobs {
-    pub fn normal() -> Self { Knobs { fault_pm: 30, unlisted_pm: 0, max_blocks: 10, coins: true, call_heavy: false } }
+    pub fn normal() -> Self { Knobs { fault_pm: 30, unlisted_pm: 0, max_blocks: 10, coins: true, call_heavy: false, code_ops: false } }
 }
 
 fn gp(rng: &mut Rng) -> u8 { GP_LO + rng.below(GP_N as u64) as u8 }
@@ -144,6 +146,7 @@ pub fn block(g: &mut GenCtx, out: &mut Vec<Instruction>) {
     }
     let pick = g.rng.below(if g.internal { 16 } else { 14 });
     let pick = if !g.internal && pick < 2 && !g.callable.is_empty() && g.rng.chance(1, 2) { 3 } else { pick };
+    let pick = if g.knobs.code_ops && g.rng.chance(1, 2) { *g.rng.pick(&[10u64, 10, 11, 3, if g.internal { 14 } else { 10 }, if g.internal { 15 } else { 11 }]) } else { pick };
     let pick = if g.knobs.call_heavy && g.rng.chance(1, 3) { *g.rng.pick(&[3u64, 5, 9, 8]) } else { pick };
     match pick {
         0 | 1 => { let k = g.rng.range(1, 6); alu(g.rng, k, out); }
@@ -354,7 +357,8 @@ pub fn gen_case_with(rng: &mut Rng, knobs: Knobs, gas_limit: Word, custom_script
     let blob = rng.bytes(64);
     for i in 0..n_contracts {
         let callable: Vec<usize> = deployed.clone();
-        let mut g = GenCtx { rng, knobs, internal: true, callable, unlisted: vec![], self_idx: None, depth: 0 };
+        let absent: Vec<usize> = if knobs.unlisted_pm > 0 { (n_contracts..N_CALLS).collect() } else { vec![] };
+        let mut g = GenCtx { rng, knobs, internal: true, callable, unlisted: absent, self_idx: None, depth: 0 };
         // recursion goes through a dedicated slot whose id is patched below: contract i may call slot i itself
         g.self_idx = Some(i);
         g.knobs.max_blocks = knobs.max_blocks.min(6);
